@@ -8,6 +8,7 @@
 #include <stdio.h>
 #include <stdlib.h>
 #include <string.h>
+#include <malloc.h>
 
 void* __real_malloc(size_t);
 void* __real_calloc(size_t, size_t);
@@ -211,7 +212,15 @@ void* __wrap_realloc(void* p, size_t n)
     }
     unsigned old = e->id;
     e->live = 0;
-    void* q = __real_realloc(p, n ? n : 1);
+    /* always move the block (legal for realloc, and what size-class allocators do when a block shrinks): a pointer
+       captured before the call then refers to released memory and its later use / release is seen */
+    size_t have = malloc_usable_size(p);
+    void* q = __real_malloc(n ? n : 1);
+    if (q) {
+        memcpy(q, p, have < n ? have : n);
+        memset(p, 0xDD, have);
+        __real_free(p);
+    }
     unsigned id = aw_register(q);
     snprintf(b, sizeof b, "r%u>%u:%zu", old, id, n);
     aw_put(b);
